@@ -219,6 +219,9 @@ class Script:
                     # hashes match! now add the RedeemScript
                     stream = BytesIO(redeem_script)
                     commands.extend(Script.parse(stream).commands)
+                # a witness program is the whole remaining script: nothing may follow it
+                if len(commands) > 0:
+                    continue
                 # witness program version 0 rule. if stack commands are:
                 # 0 <20 byte hash> this is p2wpkh
                 if len(stack) == 2 and stack[0] == b"" and len(stack[1]) == 20:
